@@ -186,6 +186,42 @@ func runC17(c c17Case, r *rep.Report) (key, msg string, stats map[string]int64) 
 			w := rig.NewWorld(rig.Options{Server: so})
 			defer w.Shutdown()
 			eff := w.Eng.Opts().Cookie()
+			if c.Cookie != "" {
+				// overlapping handshakes: each response must carry ITS session's id
+				const K = 6
+				type hs struct {
+					cl  *rig.Client
+					err error
+				}
+				ch := make(chan hs, K)
+				for k := 0; k < K; k++ {
+					go func() {
+						cl, err := w.Connect(rig.ClientCfg{Rev: 4, Transport: "polling"})
+						ch <- hs{cl, err}
+					}()
+				}
+				for k := 0; k < K; k++ {
+					h := <-ch
+					if h.err != nil {
+						continue
+					}
+					stats["concurrent_handshakes"]++
+					cookies := (&http.Response{Header: h.cl.Polls()[0].Header}).Cookies()
+					if len(cookies) != 1 || cookies[0].Value != h.cl.Sid {
+						key, msg = "c17-cookie-value", fmt.Sprintf("concurrent handshakes: Set-Cookie %q on the response that opened session %q", h.cl.Polls()[0].Header.Values("Set-Cookie"), h.cl.Sid)
+						return
+					}
+					h.cl.Stop()
+				}
+				rig.Wait()
+				// these sessions are not part of the per-session event accounting below
+				for _, sid := range w.SocketIDs() {
+					w.SocketByID(sid).Close(true)
+				}
+				time.Sleep(time.Millisecond)
+				rig.Wait()
+			}
+			base := len(w.SocketIDs())
 			for s := 0; s < c.Sessions; s++ {
 				origin := c.Origins[s%len(c.Origins)]
 				hdr := http.Header{}
@@ -320,7 +356,7 @@ func runC17(c c17Case, r *rep.Report) (key, msg string, stats map[string]int64) 
 					mine := esid == sid
 					if esid == "" {
 						// handshake responses carry no sid: the k-th one belongs to the k-th session
-						mine = emptyIdx[e.Kind] == s
+						mine = emptyIdx[e.Kind] == s+base
 						emptyIdx[e.Kind]++
 					}
 					if !mine {
